@@ -6,7 +6,6 @@ import (
 	"io"
 
 	"github.com/ohler55/ojg/oj"
-	"github.com/ohler55/ojg/sen"
 	"github.com/ohler55/slip"
 	"github.com/ohler55/slip/pkg/cl"
 	"github.com/ohler55/slip/pkg/flavors"
@@ -95,11 +94,11 @@ func (f *JSONParse) Call(s *slip.Scope, args slip.List, depth int) (result slip.
 	} else {
 		switch ta := args[1].(type) {
 		case slip.String:
-			sen.MustParse([]byte(ta), cb)
+			mustParseSEN([]byte(ta), cb)
 		case slip.Octets:
-			sen.MustParse([]byte(ta), cb)
+			mustParseSEN([]byte(ta), cb)
 		case io.Reader:
-			sen.MustParseReader(ta, cb)
+			mustParseSENReader(ta, cb)
 		default:
 			slip.TypePanic(s, depth, "input", ta, "string", "input-stream")
 		}
